@@ -4,6 +4,7 @@ cd "$(dirname "$0")/.."
 TIER="${1:-quick}"; SEED="${2:-1}"
 python3 extract/extract.py "${VERIF_REPO:-/repo}/src" lean/Kanal/Generated.lean
 python3 extract/rs2lean.py "${VERIF_REPO:-/repo}/src" lean/Kanal/GenCode.lean >/dev/null
+python3 extract/rs2proto.py "${VERIF_REPO:-/repo}/src" lean/Kanal/GenProto.lean >/dev/null
 for p in $(python3 -c "import json; print(' '.join(c['property_id'] for c in json.load(open('MANIFEST.json'))['checks']))"); do
   VERIF_SEED=$SEED ./check $p --tier $TIER 2>&1 | grep -E "VIOLATION|KNOWN-FINDING|\] C[0-9]+ tier" | tail -2
 done
